@@ -17,6 +17,117 @@ type Doc struct {
 // ForeignDoc generates a valid document of the given format with the
 // foreign-encoder generators.
 func ForeignDoc(r *Rand, codec string, maxDepth, maxNodes int, container bool) Doc {
+	d := foreignDoc(r, codec, maxDepth, maxNodes, container)
+	if maxDepth >= 4 && r.P(1, 40) {
+		return deepWrap(r, d, r.Range(30, 100))
+	}
+	return d
+}
+
+// deepWrap nests a document inside n levels of arrays / single-member
+// objects: deeper than the 32/64-entry stacks the parsers pre-allocate.
+func deepWrap(r *Rand, d Doc, n int) Doc {
+	var pre, post []byte
+	for i := 0; i < n; i++ {
+		obj := r.Bool()
+		switch d.Codec {
+		case "json":
+			if obj {
+				pre = append(pre, []byte(`{"w":`)...)
+				post = append([]byte{'}'}, post...)
+			} else {
+				pre = append(pre, '[')
+				post = append([]byte{']'}, post...)
+			}
+		case "cborl":
+			indef := r.Bool()
+			switch {
+			case obj && indef:
+				pre = append(pre, 0xbf, 0x61, 'w')
+				post = append([]byte{0xff}, post...)
+			case obj:
+				pre = append(pre, 0xa1, 0x61, 'w')
+			case indef:
+				pre = append(pre, 0x9f)
+				post = append([]byte{0xff}, post...)
+			default:
+				pre = append(pre, 0x81)
+			}
+		default:
+			counted := r.Bool()
+			switch {
+			case obj && counted:
+				pre = append(pre, '{', '#', 'i', 1, 'i', 1, 'w')
+			case obj:
+				pre = append(pre, '{', 'i', 1, 'w')
+				post = append([]byte{'}'}, post...)
+			case counted:
+				pre = append(pre, '[', '#', 'U', 1)
+			default:
+				pre = append(pre, '[')
+				post = append([]byte{']'}, post...)
+			}
+		}
+		_ = obj
+	}
+	// build the value inside-out is order dependent: wrap in reverse order of pre
+	// (the first wrapper written is the outermost); recompute by re-parsing the
+	// wrapper kinds from pre is overkill — track kinds instead
+	return deepValue(d, pre, post, n)
+}
+
+func deepValue(d Doc, pre, post []byte, n int) Doc {
+	// kinds are recoverable from pre per codec: scan it
+	var kinds []bool // true = object
+	switch d.Codec {
+	case "json":
+		for i := 0; i < len(pre); i++ {
+			if pre[i] == '{' {
+				kinds = append(kinds, true)
+				i += 4
+			} else {
+				kinds = append(kinds, false)
+			}
+		}
+	case "cborl":
+		for i := 0; i < len(pre); i++ {
+			if pre[i] == 0xbf || pre[i] == 0xa1 {
+				kinds = append(kinds, true)
+				i += 2
+			} else {
+				kinds = append(kinds, false)
+			}
+		}
+	default:
+		for i := 0; i < len(pre); i++ {
+			switch {
+			case pre[i] == '{' && pre[i+1] == '#':
+				kinds = append(kinds, true)
+				i += 6
+			case pre[i] == '{':
+				kinds = append(kinds, true)
+				i += 3
+			case pre[i] == '[' && i+1 < len(pre) && pre[i+1] == '#':
+				kinds = append(kinds, false)
+				i += 3
+			default:
+				kinds = append(kinds, false)
+			}
+		}
+	}
+	v := d.Values[0]
+	for i := len(kinds) - 1; i >= 0; i-- {
+		if kinds[i] {
+			v = val.V{K: val.Obj, Keys: []string{"w"}, A: []val.V{v}}
+		} else {
+			v = val.V{K: val.Arr, A: []val.V{v}}
+		}
+	}
+	b := append(append(append([]byte{}, pre...), d.Bytes...), post...)
+	return Doc{Codec: d.Codec, Bytes: b, Values: []val.V{v}, Origin: d.Origin + "+deep"}
+}
+
+func foreignDoc(r *Rand, codec string, maxDepth, maxNodes int, container bool) Doc {
 	switch codec {
 	case "json":
 		s, v, toks := JSONText(r, JSONTextOpts{MaxDepth: maxDepth, MaxNodes: maxNodes, Container: container, Compact: r.P(1, 3)})
